@@ -18,6 +18,9 @@ def _setup(tier):
     drive.install_draw()
     _STATE['tier'] = tier
     _STATE['hints'] = HE.hints(tier)
+    if tier != 'quick':
+        seen = set(_STATE['hints'])
+        _STATE['hints'] += [t for t in HE.level2_deep() if t not in seen]        # complete parent x child product at level 2
     _STATE['shards'] = HE.shards(_STATE['hints'], NSHARDS)
     _STATE['confs'] = drive.confs()
     _STATE['res'] = drive.residues(3, tier)
